@@ -173,3 +173,41 @@ pub fn arg_u64(args: &[String], name: &str, default: u64) -> u64 {
         .map(|s| s.parse().unwrap())
         .unwrap_or(default)
 }
+
+/// Hang detector: if `tick` is not called for `secs` seconds, reports the current case on stdout
+/// as a {"bad":["C01 hang ..."]} record and terminates the process (exit code 0: the record is data).
+pub struct Watchdog {
+    state: std::sync::Arc<std::sync::Mutex<(std::time::Instant, Vec<u8>, bool)>>,
+}
+impl Watchdog {
+    pub fn start(secs: u64) -> Self {
+        let state = std::sync::Arc::new(std::sync::Mutex::new((std::time::Instant::now(), Vec::new(), false)));
+        let st = state.clone();
+        std::thread::spawn(move || loop {
+            std::thread::sleep(std::time::Duration::from_millis(500));
+            let g = st.lock().unwrap();
+            if g.2 {
+                return;
+            }
+            if g.0.elapsed().as_secs() >= secs {
+                println!(
+                    "{}",
+                    serde_json::json!({"bad": ["C01 hang: no progress for the watchdog period"], "input": lossy(&g.1),
+                                       "bytes": bytes_json(&g.1), "v": "?", "kind": "hang"})
+                );
+                println!("{}", serde_json::json!({"summary": true, "aborted": "hang"}));
+                std::process::exit(0);
+            }
+        });
+        Watchdog { state }
+    }
+    pub fn tick(&self, case: &[u8]) {
+        let mut g = self.state.lock().unwrap();
+        g.0 = std::time::Instant::now();
+        g.1.clear();
+        g.1.extend_from_slice(case);
+    }
+    pub fn stop(&self) {
+        self.state.lock().unwrap().2 = true;
+    }
+}
